@@ -42,9 +42,38 @@ def _twin(cm, case, prop, mini, limit=None):
             break
     return n, bad, time.time() - t0
 
+_HISTORY = []        # keys whose twins ran in this worker process, in order (for history replays)
+
+HIST_REPLAY = '''
+import sys, os
+sys.path.insert(0, %(verif)r); sys.path.insert(0, %(repo)r)
+sys.dont_write_bytecode = True
+from pyvc.harness import replay_twin_history
+sys.exit(replay_twin_history(%(cm)r, %(bmod)r, %(bfn)r, %(keys)r))
+'''
+
+def replay_twin_history(cm_name, builder_mod, builder_fn, keys):
+    """re-run the bounded twins of `keys` in order in this (fresh) process; exit code 1 iff the twin of the LAST key is violated:
+       a failure that only shows after the earlier calls is a history-dependent result of the code under test"""
+    common.use_repo()
+    cm = importlib.import_module(cm_name)
+    last = None
+    for key in keys:
+        case = getattr(importlib.import_module(builder_mod), builder_fn)(key)
+        if case.twin_inputs is None: continue
+        last = _twin(cm, case, None, None)
+    if last is None: return 0
+    n, bad, secs = last
+    if bad is not None:
+        print('after the twins of %d earlier cases: args %s: %s' % (len(keys) - 1, bad[1], bad[2]))
+        return 1
+    print('twin of the last case clean (%d inputs)' % n)
+    return 0
+
 def _work(job):
     cm_name, builder_mod, builder_fn, key, prop, opts = job
     common.use_repo()
+    _HISTORY.append(key)
     from pyvc import runner
     from pyvc.engine import Unsupported
     mini = MiniRun()
@@ -68,8 +97,17 @@ def _work(job):
             if bad is not None:
                 mv, exprs, msg = bad
                 confirmed, out, rp = runner.native_replay(mini, base + ':twin', case, mv, cm_name)
+                detail = 'args %s: %s' % (exprs, msg)
+                if not confirmed:
+                    # right when called alone, wrong here: the result depends on the calls made before in this process
+                    script = HIST_REPLAY % dict(verif=common.VERIF, repo=common.REPO, cm=cm_name, bmod=builder_mod, bfn=builder_fn, keys=list(_HISTORY))
+                    rp = common.Run.write_replay(mini, base + ':twin', {'obligation': base + ':twin', 'detail': detail + ' [history-dependent: after the twins of %d earlier cases]' % (len(_HISTORY) - 1)}, script)
+                    rc, out2 = common.native_run(rp, timeout=600)
+                    if rc == 1:
+                        confirmed = True
+                        detail += ' -- only after the operations of %d earlier cases in the same process (history-dependent result)' % (len(_HISTORY) - 1)
                 mini.ob(base + ':twin', FAILED if confirmed else ENGINE_ERR, 'BND', 'cpython-enum', secs,
-                        detail='args %s: %s' % (exprs, msg), witness=rp, confirmed=confirmed, func=case.qname)
+                        detail=detail, witness=rp, confirmed=confirmed, func=case.qname)
             else:
                 mini.ob(base + ':twin', BOUNDED_OK, 'BND', 'cpython-enum', secs, detail='%d inputs' % n, func=case.qname)
                 mini.twin_evals = getattr(mini, 'twin_evals', 0) + n
